@@ -64,22 +64,22 @@ Proof. split; reflexivity. Qed.
 (* ------------------------------------------------------------------ *)
 (* yaml-diff *)
 
-(* once two documents were picked and the differ returned its report:
-   exit 0 <-> no entry is a difference; exit 1 otherwise *)
+(* once two documents were picked, the differ returned its report and every entry renders
+   (str(entry) raises nothing): exit 0 <-> no entry is a difference; exit 1 otherwise *)
 Theorem C16_diff_exit_iff :
   forall estr a lhs rhs entries li ri,
-    dr_picked (diff_main estr a lhs rhs (LOk entries)) = Some (li, ri) ->
-    (r_status (dr_run (diff_main estr a lhs rhs (LOk entries))) = Exit 0 <-> no_difference entries) /\
-    (r_status (dr_run (diff_main estr a lhs rhs (LOk entries))) = Exit 1 <-> ~ no_difference entries).
+    dr_picked (diff_main estr a lhs rhs (LOk entries)) = Some (li, ri) -> all_render entries ->
+    (r_status (dr_run (diff_main estr a lhs rhs (LOk entries))) = Exit 0 <-> no_difference (map fst entries)) /\
+    (r_status (dr_run (diff_main estr a lhs rhs (LOk entries))) = Exit 1 <-> ~ no_difference (map fst entries)).
 Proof. exact diff_exit_iff. Qed.
 Print Assumptions C16_diff_exit_iff.
 
 (* what is printed is exactly the entries the options select, in report order; nothing under --quiet *)
 Theorem C16_diff_prints_entries :
   forall estr a lhs rhs entries li ri,
-    dr_picked (diff_main estr a lhs rhs (LOk entries)) = Some (li, ri) ->
+    dr_picked (diff_main estr a lhs rhs (LOk entries)) = Some (li, ri) -> all_render entries ->
     printed_entries (r_out (dr_run (diff_main estr a lhs rhs (LOk entries)))) =
-    if n_quiet (da_noise a) then [] else selected_from a entries 0.
+    if n_quiet (da_noise a) then [] else selected_from a (map fst entries) 0.
 Proof. exact diff_prints_entries. Qed.
 Print Assumptions C16_diff_prints_entries.
 
@@ -87,11 +87,11 @@ Definition ex_args_diff :=
   mkdiff "l.yaml" "r.yaml" (mknoise false false false) false false false false false false false false None None.
 Definition ex_src (name : string) (docs : list nat) := mksrc name true (mkraw docs None).
 Example C16_diff_example :
-  diff_main 9 ex_args_diff (ex_src "l.yaml" [1]) (ex_src "r.yaml" [2]) (LOk [DSame; DChange; DAdd; DSame]) =
+  diff_main 9 ex_args_diff (ex_src "l.yaml" [1]) (ex_src "r.yaml" [2]) (LOk [(DSame, None); (DChange, None); (DAdd, None); (DSame, None)]) =
   mkdrun (mkrun (Exit 1) [OEntry 1; OSep; OEntry 2] []) (Some (0, 0)).
 Proof. vm_compute. reflexivity. Qed.
 Example C16_diff_example_equal :
-  diff_main 9 ex_args_diff (ex_src "l.yaml" [1]) (ex_src "r.yaml" [1]) (LOk [DSame; DSame]) =
+  diff_main 9 ex_args_diff (ex_src "l.yaml" [1]) (ex_src "r.yaml" [1]) (LOk [(DSame, None); (DSame, None)]) =
   mkdrun (mkrun (Exit 0) [] []) (Some (0, 0)).
 Proof. vm_compute. reflexivity. Qed.
 
